@@ -36,19 +36,23 @@ theorem nextStream_header (c : Check) (r : List Nat) : ∀ (k fuel z : Nat), k +
     rw [this]
 
 
+/-- only zero bytes up to the end of the input: accepted iff their number (with those already seen) is a multiple of 4 -/
 theorem nextStream_zeros : ∀ (k fuel z : Nat), k + 1 ≤ fuel →
-    nextStream fuel (List.replicate k 0) z = .ok none := by
+    nextStream fuel (List.replicate k 0) z = if (z + k) % 4 ≠ 0 then .error .invalidData else .ok none := by
   intro k
   induction k with
   | zero =>
     intro fuel z hf
     obtain ⟨fuel, rfl⟩ : ∃ f, fuel = f + 1 := ⟨fuel - 1, by omega⟩
-    rfl
+    simp only [List.replicate_zero, nextStream, Nat.add_zero]
+    split <;> rfl
   | succ k ih =>
     intro fuel z hf
     obtain ⟨fuel, rfl⟩ : ∃ f, fuel = f + 1 := ⟨fuel - 1, by omega⟩
     simp only [List.replicate_succ, nextStream, if_true]
-    exact ih fuel (z + 1) (by omega)
+    rw [ih fuel (z + 1) (by omega)]
+    have : z + 1 + k = z + (k + 1) := by omega
+    rw [this]
 
 /-- after any amount of padding, a non-zero byte that does not start the magic is rejected -/
 theorem nextStream_garbage (b : Nat) (r : List Nat) (hb0 : b ≠ 0) (hb : b ≠ 253) : ∀ (k fuel z : Nat), k + 1 ≤ fuel →
@@ -157,13 +161,19 @@ theorem afterStream_cat (total cap : Nat) : ∀ (ss : List (Nat × Strm)),
     total = pre + (catBytes ss ++ List.replicate t 0).length → pre % 4 = 0 →
     catFuel ss ≤ fuel → acc.length + (catData ss).length ≤ cap →
     afterStream true total fuel (catBytes ss ++ List.replicate t 0) acc blks cap
-      = .ok (acc ++ catData ss) total (finalBlks ss blks) := by
+      = if t % 4 ≠ 0 then .err .invalidData else .ok (acc ++ catData ss) total (finalBlks ss blks) := by
   intro ss
   induction ss with
   | nil =>
     intro _ t acc blks pre fuel _ _ _ _
     simp only [catBytes, List.nil_append, catData, List.append_nil, finalBlks]
-    exact afterStream_none _ _ _ _ _ _ (nextStream_zeros t _ 0 (by simp))
+    have hz := nextStream_zeros t ((List.replicate t 0).length + 1) 0 (by simp)
+    rw [Nat.zero_add] at hz
+    by_cases ht : t % 4 ≠ 0
+    · rw [if_pos ht] at hz ⊢
+      exact afterStream_err _ _ _ _ _ _ _ hz
+    · rw [if_neg ht] at hz ⊢
+      exact afterStream_none _ _ _ _ _ _ hz
   | cons x ss ih =>
     obtain ⟨k, s⟩ := x
     intro hss t acc blks pre fuel htot hpre hfuel hcap
